@@ -8,7 +8,7 @@ from . import lincommon as lc
 
 PROP = "C07"
 HOSTILE = ('scale', 'mean', 'special')
-MONITORS = ("WF", "DENS", "CACHE")
+MONITORS = ("WF", "DENS", "CACHE", "FORM")
 REQUIRED_MONITORS = ("CACHE",)
 ANCHORS = [("conditional.py", "ConditionalGaussianPDF.affine_joint_transformation"),
            ("conditional.py", "ConditionalGaussianPDF.affine_joint_transformation", "if p_x.D > self.Dy"),
